@@ -52,7 +52,10 @@ def _call(modname, funcname, arg):
     does not reproduce from a fresh process is retried after replaying that history."""
     try:
         mod = importlib.import_module(modname)
+        t0 = time.time()
         res = getattr(mod, funcname)(arg)
+        if isinstance(res, dict):
+            res['_elapsed'] = time.time() - t0
         if isinstance(res, dict) and res.get('violations'):
             prior = _PROCESS_LOG[-8:]
             try:
@@ -69,6 +72,18 @@ def _call(modname, funcname, arg):
         if type(e).__name__ == 'ConstructionFailed':
             return ('ok', construction_violation(e))
         return ('err', traceback.format_exc())
+
+
+def _call_seq(modname, funcname, args):
+    """Several work items one after the other in ONE process (cross-configuration history)."""
+    tot = new_result()
+    for a in args:
+        st, res = _call(modname, funcname, a)
+        if st == 'err':
+            return (st, res)
+        merge(tot, res)
+    tot['outcomes'] = sorted(tot['outcomes'])
+    return ('ok', tot)
 
 
 class Ctx:
@@ -113,9 +128,15 @@ class Ctx:
                 order.append(s)
             by[s].append(sh)
         futs = {}
+        fut_shard = {}
+        timed = []
+        idx_of = {}
         for s in order:
             for sh in by[s]:
-                futs[self.pool.submit(_call, self.mod.__name__, funcname, sh)] = s
+                f = self.pool.submit(_call, self.mod.__name__, funcname, sh)
+                futs[f] = s
+                fut_shard[f] = sh
+                idx_of[id(sh)] = len(idx_of)
         done_count = {s: 0 for s in order}
         pending = set(futs)
         cancelled = False
@@ -131,6 +152,7 @@ class Ctx:
                     raise FrameworkError(res)
                 s = futs[f]
                 done_count[s] += 1
+                timed.append((res.get('_elapsed', 1e9), fut_shard[f]))
                 merge(self.agg, res)
                 sr = self.strata.setdefault(s, {'shards': 0, 'evaluations': 0})
                 sr['shards'] += 1
@@ -140,6 +162,50 @@ class Ctx:
                 for g in list(pending):
                     if g.cancel():
                         pending.discard(g)
+        # cross-configuration sequence pass: module-level state of the library (anything shared by all Algebra objects) makes
+        # behaviour depend on what the process did before; the cheapest work items are run again one after the other in a
+        # single process, in two orders (deterministic, unlike the assignment of work items to pool workers above)
+        seq_budget = float(os.environ.get('VERIF_SEQ_BUDGET', 12 if self.tier == 'quick' else 60))
+        if not cancelled and seq_budget > 0 and len(timed) > 1:
+            timed.sort(key=lambda t: t[0])
+            pick, tot = [], 0.0
+            for el, sh in timed:
+                if 'seq' in sh:
+                    continue
+                if tot + el > seq_budget:
+                    break
+                pick.append(sh)
+                tot += el
+            if len(pick) > 1:
+                # keep the original (simplest first) order of the selected items
+                pick.sort(key=lambda sh: idx_of[id(sh)])
+                f1 = self.pool.submit(_call_seq, self.mod.__name__, funcname, pick)
+                f2 = self.pool.submit(_call_seq, self.mod.__name__, funcname, list(reversed(pick)))
+                name = 'cross-configuration sequence pass (cheapest work items again, one process, two orders)'
+                for f in (f1, f2):
+                    st, res = f.result()
+                    if st == 'err':
+                        raise FrameworkError(res)
+                    ev = res.get('evals', 0)
+                    # only violations are new information; the cases themselves were already counted above
+                    res['evals'] = 0
+                    res['nontrivial'] = 0
+                    res['skipped'] = 0
+                    res['samples'] = []
+                    # a cause already reported by the ordinary pass is not new; anything else only shows in sequence
+                    have = {v['key'] for v in self.agg['violations']}
+                    keep = []
+                    for v in res['violations']:
+                        if v['key'] in have:
+                            continue
+                        v['key'] = v['key'] + ':in-sequence'
+                        keep.append(v)
+                    res['violations'] = keep
+                    merge(self.agg, res)
+                    sr = self.strata.setdefault(name, {'shards': 0, 'evaluations': 0})
+                    sr['shards'] += len(pick)
+                    sr['evaluations'] += ev
+                    sr['complete'] = True
         for s in order:
             sr = self.strata.setdefault(s, {'shards': 0, 'evaluations': 0})
             sr['planned_shards'] = len(by[s])
